@@ -1,5 +1,5 @@
 /-!
-# Core/AnnVisit — model of the dispatch of `pyanalyze.annotations._Visitor`
+# Core/AnnVisit — model of the dispatch of `pyanalyze.annotations._Visitor` (before and after fix 9c1e869)
 
 `_Visitor` (annotations.py:966‥1134) evaluates an annotation given as an AST (string annotations,
 annotations under `from __future__ import annotations`, stub annotations). It is an
@@ -70,65 +70,111 @@ inductive Res
 
 mutual
 /-- `_Visitor(ctx).visit(e)`; `sup k` = the class has a method `visit_<k>`. -/
-def annVisit (sup : String → Bool) : AExpr → Res
+def oldAnnVisit (sup : String → Bool) : AExpr → Res
   | .name c => if sup "Name" then .ok c else .raise "Name"
   | .const => if sup "Constant" then .ok none else .raise "Constant"
   | .attr v c =>
     if sup "Attribute" then
-      match annVisit sup v with
+      match oldAnnVisit sup v with
       | .raise k => .raise k
       | .ok _ => .ok c
     else .raise "Attribute"
   | .sub v s =>
     if sup "Subscript" then
-      match annVisit sup v with
+      match oldAnnVisit sup v with
       | .raise k => .raise k
       | .ok _ =>
-        match annVisit sup s with
+        match oldAnnVisit sup s with
         | .raise k => .raise k
         | .ok _ => .ok none
     else .raise "Subscript"
-  | .tuple es => if sup "Tuple" then (match annVisitL sup es with | some k => .raise k | none => .ok none) else .raise "Tuple"
-  | .list es => if sup "List" then (match annVisitL sup es with | some k => .raise k | none => .ok none) else .raise "List"
-  | .set es => if sup "Set" then (match annVisitL sup es with | some k => .raise k | none => .ok none) else .raise "Set"
+  | .tuple es => if sup "Tuple" then (match oldAnnVisitL sup es with | some k => .raise k | none => .ok none) else .raise "Tuple"
+  | .list es => if sup "List" then (match oldAnnVisitL sup es with | some k => .raise k | none => .ok none) else .raise "List"
+  | .set es => if sup "Set" then (match oldAnnVisitL sup es with | some k => .raise k | none => .ok none) else .raise "Set"
   | .dict ks vs =>
     if sup "Dict" then
-      match annVisitL sup ks with
+      match oldAnnVisitL sup ks with
       | some k => .raise k
-      | none => (match annVisitL sup vs with | some k => .raise k | none => .ok none)
+      | none => (match oldAnnVisitL sup vs with | some k => .raise k | none => .ok none)
     else .raise "Dict"
   | .binop bitor l r =>
     if sup "BinOp" then
       if bitor then
-        match annVisit sup l with
+        match oldAnnVisit sup l with
         | .raise k => .raise k
-        | .ok _ => (match annVisit sup r with | .raise k => .raise k | .ok _ => .ok none)
+        | .ok _ => (match oldAnnVisit sup r with | .raise k => .raise k | .ok _ => .ok none)
       else .ok none
     else .raise "BinOp"
   | .unary usub e =>
     if sup "UnaryOp" then
-      if usub then (match annVisit sup e with | .raise k => .raise k | .ok _ => .ok none) else .ok none
+      if usub then (match oldAnnVisit sup e with | .raise k => .raise k | .ok _ => .ok none) else .ok none
     else .raise "UnaryOp"
   | .call f args kws =>
     if sup "Call" then
-      match annVisit sup f with
+      match oldAnnVisit sup f with
       | .raise k => .raise k
       | .ok none => .ok none
       | .ok (some .deprecated) =>
-        if kws.isEmpty then (match annVisitL sup args with | some k => .raise k | none => .ok none) else .ok none
+        if kws.isEmpty then (match oldAnnVisitL sup args with | some k => .raise k | none => .ok none) else .ok none
       | .ok (some _) =>
-        match annVisitL sup args with
+        match oldAnnVisitL sup args with
         | some k => .raise k
-        | none => (match annVisitL sup kws with | some k => .raise k | none => .ok none)
+        | none => (match oldAnnVisitL sup kws with | some k => .raise k | none => .ok none)
     else .raise "Call"
   | .other k => if sup k then .ok none else .raise k
 /-- visiting a list of nodes in order: the kind of the first node that raises -/
-def annVisitL (sup : String → Bool) : List AExpr → Option String
+def oldAnnVisitL (sup : String → Bool) : List AExpr → Option String
   | [] => none
   | e :: es =>
-    match annVisit sup e with
+    match oldAnnVisit sup e with
     | .raise k => some k
-    | .ok _ => annVisitL sup es
+    | .ok _ => oldAnnVisitL sup es
+end
+
+/-! ## The visitor since fix 9c1e869
+
+`generic_visit` no longer raises: it reports one `"Unsupported syntax in annotation: <Kind>"` error
+through `ctx.show_error` and returns `AnyValue(error)` (annotations.py:984‥991); the children of such a
+node are still never visited, but the visit of the *enclosing* nodes now continues. The model returns
+the kinds reported, in order, and the callee class of the value. `oldAnnVisit` above is the visitor
+before the fix, kept for the regression witnesses of Props/C12.lean. Not modelled: callees that are
+`Annotated[]` metadata classes (`CustomCheck` / `annotated_types.BaseMetadata` subclasses, fix
+1007ddd: their arguments are visited until the first one that is not a literal) — the
+correspondence namespace contains none. -/
+
+mutual
+/-- `_Visitor(ctx).visit(e)`: (kinds reported as unsupported, in order; callee class of the result). -/
+def annVisit (sup : String → Bool) : AExpr → List String × Option Ctor
+  | .name c => if sup "Name" then ([], c) else (["Name"], none)
+  | .const => if sup "Constant" then ([], none) else (["Constant"], none)
+  | .attr v c =>
+    if sup "Attribute" then
+      let ev := (annVisit sup v).1
+      (ev, if ev.isEmpty then c else none)
+    else (["Attribute"], none)
+  | .sub v s => if sup "Subscript" then ((annVisit sup v).1 ++ (annVisit sup s).1, none) else (["Subscript"], none)
+  | .tuple es => if sup "Tuple" then (annVisitL sup es, none) else (["Tuple"], none)
+  | .list es => if sup "List" then (annVisitL sup es, none) else (["List"], none)
+  | .set es => if sup "Set" then (annVisitL sup es, none) else (["Set"], none)
+  | .dict ks vs => if sup "Dict" then (annVisitL sup ks ++ annVisitL sup vs, none) else (["Dict"], none)
+  | .binop bitor l r =>
+    if sup "BinOp" then
+      if bitor then ((annVisit sup l).1 ++ (annVisit sup r).1, none) else ([], none)
+    else (["BinOp"], none)
+  | .unary usub e =>
+    if sup "UnaryOp" then (if usub then ((annVisit sup e).1, none) else ([], none)) else (["UnaryOp"], none)
+  | .call f args kws =>
+    if sup "Call" then
+      match annVisit sup f with
+      | (ef, none) => (ef, none)
+      | (ef, some .deprecated) => if kws.isEmpty then (ef ++ annVisitL sup args, none) else (ef, none)
+      | (ef, some _) => (ef ++ (annVisitL sup args ++ annVisitL sup kws), none)
+    else (["Call"], none)
+  | .other k => if sup k then ([], none) else ([k], none)
+/-- visiting a list of nodes in order -/
+def annVisitL (sup : String → Bool) : List AExpr → List String
+  | [] => []
+  | e :: es => (annVisit sup e).1 ++ annVisitL sup es
 end
 
 end Pya.C12
